@@ -25,7 +25,8 @@ package dns
 //@ func cmToM [C02 C05]
 //@ func rfc3597Header [C02 C05]
 //@ func (*APLPrefix).str [C02 C05]
-//@ func TimeToString [C02 C05]
+//@ func TimeToString [C02 C05 C17]
+//@   exit utc: called("UTC") && called("Format") [C05 C17]
 //@ func saltToString [C02 C05]
 //@ func (SVCBKey).String [C02 C05]
 //@ iface EDNS0.String [C02 C05]
